@@ -173,6 +173,10 @@ let () =
                        pending_op := (KSetMeta, rhs = "ok", (d, txt));
                        ignore (do_step (OSetMeta (Some d)));
                        if rhs <> "ok" then mismatch "setmeta" rhs "ok")
+              | "N", [] ->
+                  (* SetMetadata with a value that is not a document: refused, the slot keeps what it held *)
+                  incr nops; pending_name := "SetMetadata"; pending_op := (KSetMeta, false, ([], []));
+                  if rhs = "ok" then mismatch "setmeta-unreadable" rhs "err"
               | ("R" | "r"), [] ->
                   if tag = "R" then begin incr nops; pending_name := "Resolve"; pending_op := (KResolve, false, ([], [])) end
                   else last_r := (if rhs = "none" then None else Some (parse_view rhs));
